@@ -239,6 +239,15 @@ class Model:
             out.append("<!DOCTYPE nta PUBLIC '-//Uppaal Team//DTD Flat System 1.6//EN' 'http://www.it.uu.se/research/group/darts/uppaal/flat-1_6.dtd'>")
         out.append('<nta>')
 
+        nw = [nz.get('name_ws', 0)]
+
+        def nm(name):
+            """a <name> is an identifier with optional white space around it"""
+            if not nw[0]:
+                return name
+            nw[0] = (nw[0] * 1103515245 + 12345) % (1 << 31)
+            pads = ['', ' ', '\n', '\n\t\t', '  ', '\t', '\n      ']
+            return pads[(nw[0] >> 8) % len(pads)] + name + pads[(nw[0] >> 14) % len(pads)]
         sp = [nz.get('split', 0)]
 
         def block(text):
@@ -268,7 +277,7 @@ class Model:
         out.append(ind + '<declaration>' + block(nl.join(d.text for d in self.gdecls)) + '</declaration>')
         for t in self.templates:
             out.append(ind + '<template>')
-            out.append(ind * 2 + '<name x="5" y="5">%s</name>' % t.name)
+            out.append(ind * 2 + '<name x="5" y="5">%s</name>' % nm(t.name))
             if t.params or nz.get('empty_param'):
                 out.append(ind * 2 + '<parameter>' + block(', '.join(p[1] for p in t.params)) + '</parameter>')
             if t.decls or nz.get('empty_decl', True):
@@ -277,7 +286,7 @@ class Model:
                 attrs = 'id="%s" x="%d" y="%d"' % (l.id, 10, 20) if not nz.get('attr_swap') else 'x="%d" y="%d" id="%s"' % (10, 20, l.id)
                 out.append(ind * 2 + '<location %s>' % attrs)
                 if l.name:
-                    out.append(ind * 3 + '<name x="1" y="2">%s</name>' % l.name)
+                    out.append(ind * 3 + '<name x="1" y="2">%s</name>' % nm(l.name))
                 labs = []
                 if l.inv is not None:
                     labs.append(ind * 3 + '<label kind="invariant" x="1" y="2">' + block(R(l.inv)) + '</label>')
@@ -693,6 +702,8 @@ def models(draw, max_templates=3, sizes='normal', for_xta=False, need_clean=Fals
         m.noise = {'extra_labels': draw(st.integers(1, 10 ** 6))}
     if draw(st.integers(0, 5)) == 0:            # a sixth spell their character data in pieces (XML comments, CDATA sections)
         m.noise['split'] = draw(st.integers(1, 10 ** 6))
+    if draw(st.integers(0, 3)) == 0:            # a quarter have white space and line breaks around the names of templates and locations
+        m.noise['name_ws'] = draw(st.integers(1, 10 ** 6))
     used = set()
 
     def fresh(prefix):
